@@ -27,6 +27,9 @@ MC = 0o100  # the multicast address: a node also reassembles multicasts of its l
 
 
 def mk_message(sender, fid, nfrag, typ, tag, to=ME):
+    if nfrag == 0:  # an empty message: one header-only frame
+        frames = net_ref.fragment(sender, to, fid, typ, b"")
+        return {"from": sender, "id": fid, "type": typ, "msg": b"", "frames": frames, "to": to}
     n = 24 * (nfrag - 1) + 1 + (tag * 7) % 23
     body = bytes(((tag * 31 + i * 5 + sender + (to != ME)) & 0xFF) for i in range(n))
     frames = net_ref.fragment(sender, to, fid, typ, body)
@@ -128,6 +131,22 @@ def gen_cases(ctx):
                     for deq in ([], [len(order)]):
                         yield {"msgs": [[0o3, 10, na, 70, first_to], [0o3, 10, nb, 71, second_to]],
                                "order": order, "deq": deq, "path": "radio" if (na + nb + keep_a) % 3 == 0 else "direct"}
+    # empty (header-only) messages between / after other traffic: they carry nothing over from
+    # the frame that was handled before them
+    for nfrag in (1, 2, 3):
+        for typ in (1, 66):
+            for path in ("radio", "direct"):
+                for deq in ([], [nfrag], [nfrag + 1]):
+                    yield {"msgs": [[0o3, 10, nfrag, 70], [0o4, 11, 0, typ], [0o3, 12, 0, typ], [0o5, 13, 1, 9]],
+                           "order": [[0, i] for i in range(nfrag)] + [[1, 0], [3, 0], [2, 0]], "deq": deq, "path": path}
+    # a relaying node (multicast_relay on) passes the fragments of a multicast on to the next level
+    # byte for byte - whatever its own reassembly does with them
+    for nfrag in (2, 3, 4):
+        for typ in (1, 7, 66, 127):
+            for deq in ([], [nfrag]):
+                yield {"msgs": [[0o3, 10, nfrag, typ, MC], [0o4, 11, 2, typ, MC]],
+                       "order": [[0, i] for i in range(nfrag)] + [[1, 0], [1, 1]], "deq": deq, "path": "radio",
+                       "relay": True}
     # stray fragments / restarts / random
     nrand = 8000 if ctx.tier == "quick" else 400000
     for i in range(nrand):
@@ -164,7 +183,7 @@ def gen_cases(ctx):
 
 
 class Sink:
-    def __init__(self, m, path):
+    def __init__(self, m, path, relay=False):
         self.m = m
         self.path = path
         self.rig = None
@@ -173,6 +192,8 @@ class Sink:
             self.radio = self.rig.radio("n")
             self.node = self.rig.driver(self.radio, cls=m["rf24_network"].RF24Network,
                                         node_address=ME)
+            if relay:
+                self.node.multicast_relay = True
         else:
             self.q = m["structs"].FrameQueueFrag()
             self.frame = m["structs"].RF24NetworkFrame()
@@ -205,7 +226,7 @@ class Sink:
 def run_case(ctx, case):
     m = repo()
     msgs = [mk_message(mm[0], mm[1], mm[2], mm[3], 3 + i, *mm[4:5]) for i, mm in enumerate(case["msgs"])]
-    sink = Sink(m, case["path"])
+    sink = Sink(m, case["path"], case.get("relay", False))
     try:
         delivered = []
         for step, (mi, fi) in enumerate(case["order"]):
@@ -215,9 +236,21 @@ def run_case(ctx, case):
         if len(case["order"]) in case["deq"]:
             delivered += sink.dequeue_all()
         delivered += sink.dequeue_all()
+        relay_air = list(sink.rig.air.log) if sink.rig is not None else []
     finally:
         sink.close()
     ctx.clause("histories")
+    if case.get("relay") and sink.rig is not None:
+        ctx.clause("relayed_fragments_unaltered")
+        fed = [msgs[mi]["frames"][fi] for mi, fi in case["order"]]
+        onair = [bytes(p.payload) for p in relay_air if p.kind == "data"]
+        if onair != fed:
+            bad = next((i for i, (a, b) in enumerate(zip(onair, fed)) if a != b), min(len(onair), len(fed)))
+            ctx.violation("relayed-fragment-altered", "a relaying node re-broadcast %d frames for %d multicast frames it "
+                          "received; first difference at frame %d: %s vs received %s"
+                          % (len(onair), len(fed), bad, onair[bad].hex() if bad < len(onair) else None,
+                             fed[bad].hex() if bad < len(fed) else None), case)
+            return
     sent = {}
     for mm in msgs:
         sent[(mm["from"], mm["id"], mm["type"], mm["msg"], mm["to"])] = mm
